@@ -1140,7 +1140,8 @@ func c14EndToEnd(c *Ctx, cases *[]Case, sub func() *rand.Rand) {
 		for j := rng.Intn(4); j > 0 && rng.Intn(2) == 0; j-- {
 			pre = append(pre, []string{"PTT TRUE", "PTT FALSE", "NEWSTATE ISS", "BUSY FALSE", "STATUS queued", "RDY"}[rng.Intn(6)])
 		}
-		rep := map[string]interface{}{"mode": map[bool]string{true: "tcp", false: "serial"}[tcp], "write_len": size, "crcfaults": faults, "data_fnv": fnv32(p), "before_each_answer": pre}
+		inbound := i%3 == 2 // every third write goes out on an ACCEPTED connection (Listen/Accept) instead of a dialled one
+		rep := map[string]interface{}{"mode": map[bool]string{true: "tcp", false: "serial"}[tcp], "connection": map[bool]string{true: "accepted (Listen/Accept)", false: "dialled"}[inbound], "write_len": size, "crcfaults": faults, "data_fnv": fnv32(p), "before_each_answer": pre}
 		env, err := c14Open(tcp, nil)
 		if err != nil {
 			c.Violate("C14:open-failed", "ardop.Open against the simulated TNC failed: "+err.Error(), rep)
@@ -1148,7 +1149,12 @@ func c14EndToEnd(c *Ctx, cases *[]Case, sub func() *rand.Rand) {
 		}
 		func() {
 			defer env.shutdown()
-			if err := env.dial(); err != nil {
+			if inbound {
+				if err := env.listenAccept(); err != nil {
+					c.Violate("C14:connect-failed:listen", "no inbound connection against the simulated TNC: "+err.Error(), rep)
+					return
+				}
+			} else if err := env.dial(); err != nil {
 				c.Violate("C14:connect-failed:dial", "no connection against the simulated TNC: "+err.Error(), rep)
 				return
 			}
